@@ -9,7 +9,7 @@ zlib itself is NOT modelled: it is the abstract streaming `Inflater` below.
 The wrappers around it (gzip magic sniffing on the first piece, the 2-byte zlib
 header test with buffering, raw-deflate fallback, the eof test at flush, the
 conversion of zlib.error to ProtocolError, identity passthrough) are concrete.
-The model mirrors the code after the two `fix:` commits of C19 (b03d747, 0706bd7).
+The model mirrors the code after the two `fix:` commits of C19 (63916c2, d1ba173).
 Core Lean only.
 -/
 import Wpull.Py.Basic
@@ -40,7 +40,7 @@ variable (I : Inflater)
 
 /-! ### wpull/decompression.py -/
 
-/-- `SimpleGzipDecompressor.flush` (after fix 0706bd7): flush the object, then
+/-- `SimpleGzipDecompressor.flush` (after fix d1ba173): flush the object, then
 raise `zlib.error` unless the end of the compressed stream was reached. -/
 def simpleFlush (s : I.σ) : I.σ × Except PyExc Bytes :=
   match I.flush s with
@@ -94,7 +94,7 @@ def DeflSt.new : DeflSt I := ⟨none, []⟩
 /-- the `wbits` chosen from the first two bytes -/
 def sniffMode (v : Bytes) : Mode := if isZlibHeader v then .zlib else .raw
 
-/-- `DeflateDecompressor.decompress` (after fix b03d747): buffer until two
+/-- `DeflateDecompressor.decompress` (after fix 63916c2): buffer until two
 bytes are there, then choose zlib or raw deflate from the header. -/
 def deflDecompress (d : DeflSt I) (value : Bytes) : DeflSt I × Except PyExc Bytes :=
   match d.obj with
@@ -200,6 +200,13 @@ def Outcome.result (o : Outcome I) : Except PyExc Bytes :=
   match o.err with
   | none => .ok o.outs.flatten
   | some e => .error e
+
+/-- What the caller of `read_body(..., file=…)` observes.  Every body reader
+computes `_decompress_data` / `_flush_decompressor` unconditionally and only
+guards the *write* with `if file:`; with `file=None` (`keep = false`) the
+content is discarded but the exception is not. -/
+def Outcome.observed (o : Outcome I) (keep : Bool) : Except PyExc Bytes :=
+  if keep then o.result else o.result.map (fun _ => [])
 
 /-- Decode a body that arrives in `pieces` under content coding `c`. -/
 def readBody (c : Coding) (pieces : List Bytes) : Except PyExc Bytes :=
